@@ -126,6 +126,17 @@ func runC17Buffered(s *sim.Sim) {
 	}
 	c.nKeys = s.Range("buf-keys", 1, 6)
 	c.skipBoot = false
+	// Worker pools: ample, or exactly one worker with single-key operations.
+	// Whether a queued key is still queued when a StopProviding reaches the
+	// provider depends on how many regions were dequeued before; with k free
+	// workers and more than k queued regions of equal size the provider picks
+	// at random (map order in SortPrefixesBySize). One worker and one key per
+	// operation keeps the provide queue strictly FIFO.
+	maxPerOp := 3
+	if !c.ample {
+		c.maxW, c.dedP, c.dedB = 1, 0, 0
+		maxPerOp = 1
+	}
 	s.MaxSteps = 150
 	batchSize := s.Range("buf-batch-size", 1, 8)
 	idleWrite := []time.Duration{time.Minute, 0, time.Second}[s.Draw("buf-idle-write", 3)]
@@ -174,7 +185,7 @@ func runC17Buffered(s *sim.Sim) {
 	must := map[int]bool{}     // must have been advertised at the end
 	accepted := map[int]bool{} // named by an accepting operation at least once
 	for i := range ops {
-		o := &c17BufOp{keys: h.pickKeysMax("buf", 3)}
+		o := &c17BufOp{keys: h.pickKeysMax("buf", maxPerOp)}
 		switch s.Draw("buf-kind", 6) {
 		case 0, 1:
 			o.kind = "start"
@@ -242,7 +253,9 @@ func runC17Buffered(s *sim.Sim) {
 		return true
 	}
 
+	h.emitStep()
 	for s.Step() {
+		h.emitStep()
 		if s.Failed() || h.stop {
 			break
 		}
@@ -296,6 +309,7 @@ func runC17Buffered(s *sim.Sim) {
 			h.settle()
 		}
 		h.settle()
+		h.emitStep()
 	}
 
 	if !s.Failed() && !h.stop && next >= len(ops) {
@@ -372,12 +386,15 @@ func runC17Buffered(s *sim.Sim) {
 		s.Count("step_budget_exhausted")
 	}
 
-	closeAndCensus(s, func() {
-		_ = bp.Close() // closes the inner provider through the gate
-		if h.ks != nil {
-			_ = h.ks.Close()
+	ks := h.ks
+	h.closeWith(func() error {
+		err := bp.Close() // closes the inner provider through the gate
+		if ks != nil {
+			_ = ks.Close()
 		}
+		return err
 	})
+	closeAndCensus(s, func() {}) // goroutine census
 	s.Finish()
 }
 
